@@ -237,6 +237,18 @@ def Env.entries (env : Env) : List (Path × Val) := env.map fun e => (parseName 
 
 def Env.consistent (env : Env) : Bool := pathsConsistent (env.map fun e => parseName e.1)
 
+/-! ## decimal numerals (Go `strconv.Itoa`) -/
+
+def digitChar (d : Nat) : Char :=
+  match d with
+  | 0 => '0' | 1 => '1' | 2 => '2' | 3 => '3' | 4 => '4'
+  | 5 => '5' | 6 => '6' | 7 => '7' | 8 => '8' | _ => '9'
+
+/-- decimal digits -/
+def natDigits (n : Nat) : List Char :=
+  if _h : n < 10 then [digitChar n] else natDigits (n / 10) ++ [digitChar (n % 10)]
+decreasing_by omega
+
 /-! ## configloader.go -/
 
 /-- `Load`: defaults (the struct passed in), then the file (`null` when there is none), then the environment -/
